@@ -6,7 +6,7 @@ package main
 // results of the three engines, and the abstract trace ("entries") that drives
 // the Lean Prog model.
 //
-// All identifiers are prefixed with gf to stay clear of the other groups.
+// All top-level identifiers are prefixed with f (c13, c14, c19 for the generators) to stay clear of the other groups.
 
 import (
 	"fmt"
@@ -23,35 +23,35 @@ import (
 	"github.com/AdguardTeam/urlfilter/rules"
 )
 
-// gfSilenceLogs sends slog output (RetrieveNetworkRule logs every failed
+// fSilenceLogs sends slog output (RetrieveNetworkRule logs every failed
 // retrieval) to nowhere.
-func gfSilenceLogs() {
+func fSilenceLogs() {
 	slog.SetDefault(slog.New(slog.NewTextHandler(io.Discard, nil)))
 }
 
 // ---------------------------------------------------------------- worlds ----
 
-type gfListSpec struct {
+type fListSpec struct {
 	id   int
 	text string
 	file bool
 	path string
 }
 
-// gfWorld is a set of rule lists from which any number of independent
+// fWorld is a set of rule lists from which any number of independent
 // storages/engines can be built.
-type gfWorld struct {
-	memo      map[string]*gfEntry // entry templates by request
-	specs     []gfListSpec
+type fWorld struct {
+	memo      map[string]*fEntry // entry templates by request
+	specs     []fListSpec
 	dir       string
 	ruleTexts []string // network rule texts, for request generators
 	hostNames []string // names occurring in hosts-style lines
 	domains   []string // pool domains mentioned anywhere in the lists
 }
 
-var gfHostIPs = []string{"0.0.0.0", "127.0.0.1", "::", "::1", "10.1.2.3", "2001:db8::5"}
+var fHostIPs = []string{"0.0.0.0", "127.0.0.1", "::", "::1", "10.1.2.3", "2001:db8::5"}
 
-func gfGenHostsLine(r *rng) (line string, names []string) {
+func fGenHostsLine(r *rng) (line string, names []string) {
 	n := 1 + r.n(3)
 	for i := 0; i < n; i++ {
 		names = append(names, pick(r, []string{"", "www.", "sub."})+pick(r, poolDomains))
@@ -60,7 +60,7 @@ func gfGenHostsLine(r *rng) (line string, names []string) {
 		return names[0], names[:1]
 	}
 	sep := pick(r, []string{" ", "\t", "  "})
-	line = pick(r, gfHostIPs) + sep + strings.Join(names, sep)
+	line = pick(r, fHostIPs) + sep + strings.Join(names, sep)
 	if r.chance(1, 5) {
 		line += " # note"
 	}
@@ -68,7 +68,7 @@ func gfGenHostsLine(r *rng) (line string, names []string) {
 	return line, names
 }
 
-func gfGenCosmeticLine(r *rng) string {
+func fGenCosmeticLine(r *rng) string {
 	sel := pick(r, []string{".banner", "#ad", "div[class^=\"ad\"]", ".x > .y", ".generic"})
 	switch r.n(5) {
 	case 0:
@@ -84,10 +84,10 @@ func gfGenCosmeticLine(r *rng) string {
 	}
 }
 
-// gfGenWorld generates 1..3 lists of 4..maxLines lines each.  fileMode: 0 all
+// fGenWorld generates 1..3 lists of 4..maxLines lines each.  fileMode: 0 all
 // String-backed, 1 all File-backed, 2 mixed.
-func gfGenWorld(r *rng, maxLines int, fileMode int) *gfWorld {
-	w := &gfWorld{}
+func fGenWorld(r *rng, maxLines int, fileMode int) *fWorld {
+	w := &fWorld{}
 	nl := 1 + r.n(3)
 	ids := []int{1, 2, 7, 1000, -3}
 	shuffle(r, ids)
@@ -105,10 +105,10 @@ func gfGenWorld(r *rng, maxLines int, fileMode int) *gfWorld {
 				w.ruleTexts = append(w.ruleTexts, line)
 			case k < 16:
 				var names []string
-				line, names = gfGenHostsLine(r)
+				line, names = fGenHostsLine(r)
 				w.hostNames = append(w.hostNames, names...)
 			case k < 18:
-				line = gfGenCosmeticLine(r)
+				line = fGenCosmeticLine(r)
 			case k < 19:
 				line = pick(r, []string{"! comment", "# comment", "", "   "})
 			default:
@@ -131,14 +131,14 @@ func gfGenWorld(r *rng, maxLines int, fileMode int) *gfWorld {
 			}
 		}
 		file := fileMode == 1 || (fileMode == 2 && r.chance(1, 2))
-		w.specs = append(w.specs, gfListSpec{id: ids[li], text: sb.String(), file: file})
+		w.specs = append(w.specs, fListSpec{id: ids[li], text: sb.String(), file: file})
 	}
 
 	return w
 }
 
 // materialise writes the File-backed lists to a fresh temp directory.
-func (w *gfWorld) materialise() {
+func (w *fWorld) materialise() {
 	for i := range w.specs {
 		s := &w.specs[i]
 		if !s.file || s.path != "" {
@@ -158,15 +158,15 @@ func (w *gfWorld) materialise() {
 	}
 }
 
-func (w *gfWorld) cleanup() {
+func (w *fWorld) cleanup() {
 	if w.dir != "" {
 		_ = os.RemoveAll(w.dir)
 		w.dir = ""
 	}
 }
 
-// gfHash is a short content hash (makes the op lines of different worlds distinct).
-func gfHash(s string) string {
+// fHash is a short content hash (makes the op lines of different worlds distinct).
+func fHash(s string) string {
 	h := fnv.New64a()
 	_, _ = h.Write([]byte(s))
 
@@ -174,7 +174,7 @@ func gfHash(s string) string {
 }
 
 // describe is the human-readable note of a world.
-func (w *gfWorld) describe() string {
+func (w *fWorld) describe() string {
 	var parts []string
 	for _, s := range w.specs {
 		kind := "string"
@@ -189,18 +189,18 @@ func (w *gfWorld) describe() string {
 
 // ------------------------------------------------------------------ spy ----
 
-type gfRead struct {
+type fRead struct {
 	idx   int64
 	rule  rules.Rule // what the storage got
 	under rules.Rule // what the real list returned
 	err   error
 }
 
-// gfSpyList wraps a real RuleList and records every RetrieveRule call, i.e.
+// fSpyList wraps a real RuleList and records every RetrieveRule call, i.e.
 // every cache miss of the storage above it.
-type gfSpyList struct {
+type fSpyList struct {
 	filterlist.RuleList
-	log *[]gfRead
+	log *[]fRead
 	// hostsOnly, if not empty, is what NewScanner scans instead of the real
 	// content: the same bytes with every line that is not a hosts-style rule
 	// blanked out, so that the rule indices (byte offsets) stay the same.
@@ -208,7 +208,7 @@ type gfSpyList struct {
 }
 
 // NewScanner implements filterlist.RuleList.
-func (s *gfSpyList) NewScanner() *filterlist.RuleScanner {
+func (s *fSpyList) NewScanner() *filterlist.RuleScanner {
 	if s.hostsOnly != "" {
 		return filterlist.NewRuleScanner(strings.NewReader(s.hostsOnly), s.GetID(), false)
 	}
@@ -216,8 +216,8 @@ func (s *gfSpyList) NewScanner() *filterlist.RuleScanner {
 	return s.RuleList.NewScanner()
 }
 
-// gfMaskNonHosts blanks out every line that is not a hosts-style rule.
-func gfMaskNonHosts(text string, id int) string {
+// fMaskNonHosts blanks out every line that is not a hosts-style rule.
+func fMaskNonHosts(text string, id int) string {
 	b := []byte(text)
 	for start := 0; start < len(b); {
 		end := start
@@ -242,16 +242,16 @@ func gfMaskNonHosts(text string, id int) string {
 	return string(b)
 }
 
-func (s *gfSpyList) RetrieveRule(ruleIdx int) (r rules.Rule, err error) {
+func (s *fSpyList) RetrieveRule(ruleIdx int) (r rules.Rule, err error) {
 	r, err = s.RuleList.RetrieveRule(ruleIdx)
 	under := r
-	*s.log = append(*s.log, gfRead{idx: filterlist.VerifStorageIdx(int32(s.GetID()), int32(ruleIdx)), rule: r, under: under, err: err})
+	*s.log = append(*s.log, fRead{idx: filterlist.VerifStorageIdx(int32(s.GetID()), int32(ruleIdx)), rule: r, under: under, err: err})
 
 	return r, err
 }
 
 // lists builds fresh RuleList values (new file handles for File-backed ones).
-func (w *gfWorld) lists(spy *[]gfRead, hostsOnly bool) (ls []filterlist.RuleList) {
+func (w *fWorld) lists(spy *[]fRead, hostsOnly bool) (ls []filterlist.RuleList) {
 	w.materialise()
 	for _, s := range w.specs {
 		var l filterlist.RuleList
@@ -265,10 +265,10 @@ func (w *gfWorld) lists(spy *[]gfRead, hostsOnly bool) (ls []filterlist.RuleList
 			l = &filterlist.StringRuleList{ID: s.id, RulesText: s.text}
 		}
 		if spy != nil {
-			sl := &gfSpyList{RuleList: l, log: spy}
+			sl := &fSpyList{RuleList: l, log: spy}
 			if hostsOnly {
 				// the DNS engine built over this list knows hosts-style rules only
-				sl.hostsOnly = gfMaskNonHosts(s.text, s.id) + " "
+				sl.hostsOnly = fMaskNonHosts(s.text, s.id) + " "
 			}
 			l = sl
 		}
@@ -278,7 +278,7 @@ func (w *gfWorld) lists(spy *[]gfRead, hostsOnly bool) (ls []filterlist.RuleList
 	return ls
 }
 
-func (w *gfWorld) storage(spy *[]gfRead, hostsOnly bool) *filterlist.RuleStorage {
+func (w *fWorld) storage(spy *[]fRead, hostsOnly bool) *filterlist.RuleStorage {
 	s, err := filterlist.NewRuleStorage(w.lists(spy, hostsOnly))
 	if err != nil {
 		panic(err)
@@ -289,7 +289,7 @@ func (w *gfWorld) storage(spy *[]gfRead, hostsOnly bool) *filterlist.RuleStorage
 
 // ------------------------------------------------------- canonical texts ----
 
-func gfRuleKey(r rules.Rule) string {
+func fRuleKey(r rules.Rule) string {
 	if r == nil {
 		return "nil"
 	}
@@ -297,63 +297,63 @@ func gfRuleKey(r rules.Rule) string {
 	return fmt.Sprintf("%d:%s", r.GetFilterListID(), r.Text())
 }
 
-func gfNetKey(r *rules.NetworkRule) string {
+func fNetKey(r *rules.NetworkRule) string {
 	if r == nil {
 		return "nil"
 	}
 
-	return gfRuleKey(r)
+	return fRuleKey(r)
 }
 
-func gfNetKeys(rs []*rules.NetworkRule) string {
+func fNetKeys(rs []*rules.NetworkRule) string {
 	ks := make([]string, len(rs))
 	for i, r := range rs {
-		ks[i] = gfNetKey(r)
+		ks[i] = fNetKey(r)
 	}
 
 	return "[" + strings.Join(ks, " | ") + "]"
 }
 
-func gfHostKeys(rs []*rules.HostRule) string {
+func fHostKeys(rs []*rules.HostRule) string {
 	ks := make([]string, len(rs))
 	for i, r := range rs {
-		ks[i] = gfRuleKey(r)
+		ks[i] = fRuleKey(r)
 	}
 
 	return "[" + strings.Join(ks, " | ") + "]"
 }
 
-// gfSerDNS serialises a DNS result completely, including both rewrite views.
-func gfSerDNS(res *urlfilter.DNSResult, matched bool) string {
-	return fmt.Sprintf("matched=%v rule=%s all=%s v4=%s v6=%s rwAll=%s rw=%s", matched, gfNetKey(res.NetworkRule),
-		gfNetKeys(res.NetworkRules), gfHostKeys(res.HostRulesV4), gfHostKeys(res.HostRulesV6),
-		gfNetKeys(res.DNSRewritesAll()), gfNetKeys(res.DNSRewrites()))
+// fSerDNS serialises a DNS result completely, including both rewrite views.
+func fSerDNS(res *urlfilter.DNSResult, matched bool) string {
+	return fmt.Sprintf("matched=%v rule=%s all=%s v4=%s v6=%s rwAll=%s rw=%s", matched, fNetKey(res.NetworkRule),
+		fNetKeys(res.NetworkRules), fHostKeys(res.HostRulesV4), fHostKeys(res.HostRulesV6),
+		fNetKeys(res.DNSRewritesAll()), fNetKeys(res.DNSRewrites()))
 }
 
-// gfSerDNSRaw serialises only the stored fields (no derived calls).
-func gfSerDNSRaw(res *urlfilter.DNSResult) string {
-	return fmt.Sprintf("rule=%s all=%s v4=%s v6=%s", gfNetKey(res.NetworkRule),
-		gfNetKeys(res.NetworkRules), gfHostKeys(res.HostRulesV4), gfHostKeys(res.HostRulesV6))
+// fSerDNSRaw serialises only the stored fields (no derived calls).
+func fSerDNSRaw(res *urlfilter.DNSResult) string {
+	return fmt.Sprintf("rule=%s all=%s v4=%s v6=%s", fNetKey(res.NetworkRule),
+		fNetKeys(res.NetworkRules), fHostKeys(res.HostRulesV4), fHostKeys(res.HostRulesV6))
 }
 
-func gfSerMatchingRaw(m *rules.MatchingResult) string {
-	return fmt.Sprintf("basic=%s doc=%s stealth=%s csp=%s cookie=%s replace=%s", gfNetKey(m.BasicRule),
-		gfNetKey(m.DocumentRule), gfNetKey(m.StealthRule), gfNetKeys(m.CspRules), gfNetKeys(m.CookieRules),
-		gfNetKeys(m.ReplaceRules))
+func fSerMatchingRaw(m *rules.MatchingResult) string {
+	return fmt.Sprintf("basic=%s doc=%s stealth=%s csp=%s cookie=%s replace=%s", fNetKey(m.BasicRule),
+		fNetKey(m.DocumentRule), fNetKey(m.StealthRule), fNetKeys(m.CspRules), fNetKeys(m.CookieRules),
+		fNetKeys(m.ReplaceRules))
 }
 
-func gfSerMatching(m *rules.MatchingResult) string {
-	return gfSerMatchingRaw(m) + fmt.Sprintf(" result=%s cosopt=%d", gfNetKey(m.GetBasicResult()), uint32(m.GetCosmeticOption()))
+func fSerMatching(m *rules.MatchingResult) string {
+	return fSerMatchingRaw(m) + fmt.Sprintf(" result=%s cosopt=%d", fNetKey(m.GetBasicResult()), uint32(m.GetCosmeticOption()))
 }
 
-func gfSerCosmetic(c urlfilter.CosmeticResult) string {
+func fSerCosmetic(c urlfilter.CosmeticResult) string {
 	return fmt.Sprintf("eh=%q/%q/%q/%q css=%q/%q js=%q/%q", c.ElementHiding.Generic, c.ElementHiding.Specific,
 		c.ElementHiding.GenericExtCSS, c.ElementHiding.SpecificExtCSS, c.CSS.Generic, c.CSS.Specific, c.JS.Generic, c.JS.Specific)
 }
 
-// gfSortedSet canonicalises a result as a set (used where the scheduler or a
+// fSortedSet canonicalises a result as a set (used where the scheduler or a
 // fault may legitimately change multiplicities, see DESIGN.md section 6).
-func gfSortedSet(ks []string) []string {
+func fSortedSet(ks []string) []string {
 	m := map[string]bool{}
 	for _, k := range ks {
 		m[k] = true
@@ -369,8 +369,8 @@ func gfSortedSet(ks []string) []string {
 
 // -------------------------------------------------------------- queries ----
 
-// gfQuery is one query of a history.
-type gfQuery struct {
+// fQuery is one query of a history.
+type fQuery struct {
 	kind string // "dns", "web", "all", "cos"
 	dns  *urlfilter.DNSRequest
 	web  *rules.Request
@@ -378,7 +378,7 @@ type gfQuery struct {
 	opt  rules.CosmeticOption
 }
 
-func (q *gfQuery) String() string {
+func (q *fQuery) String() string {
 	switch q.kind {
 	case "dns":
 		return fmt.Sprintf("dns{%s tags=%v name=%q ip=%v type=%d}", q.dns.Hostname, q.dns.SortedClientTags, q.dns.ClientName, q.dns.ClientIP, q.dns.DNSType)
@@ -389,10 +389,10 @@ func (q *gfQuery) String() string {
 	}
 }
 
-// gfGenQueryPool generates the pool of queries a history draws from (with
+// fGenQueryPool generates the pool of queries a history draws from (with
 // repeats): DNS queries come in families that share the hostname and differ in
 // the client fields.
-func gfGenQueryPool(r *rng, w *gfWorld, n int) (qs []*gfQuery) {
+func fGenQueryPool(r *rng, w *fWorld, n int) (qs []*fQuery) {
 	for len(qs) < n {
 		switch k := r.n(10); {
 		case k < 5:
@@ -402,7 +402,7 @@ func gfGenQueryPool(r *rng, w *gfWorld, n int) (qs []*gfQuery) {
 			} else if len(w.domains) > 0 && r.chance(1, 2) {
 				d.Hostname = pick(r, []string{"", "", "www.", "sub."}) + pick(r, w.domains)
 			}
-			qs = append(qs, &gfQuery{kind: "dns", dns: d})
+			qs = append(qs, &fQuery{kind: "dns", dns: d})
 			// siblings: same name, other client identity
 			for j := r.n(3); j > 0; j-- {
 				e := *d
@@ -410,14 +410,14 @@ func gfGenQueryPool(r *rng, w *gfWorld, n int) (qs []*gfQuery) {
 				e.ClientName = pick(r, append([]string{""}, poolClientNames...))
 				e.ClientIP = genClientIP(r)
 				e.DNSType = pick(r, poolDNSQTypes)
-				qs = append(qs, &gfQuery{kind: "dns", dns: &e})
+				qs = append(qs, &fQuery{kind: "dns", dns: &e})
 			}
 		case k < 7:
 			q := genWebRequest(r, w.ruleTexts)
 			if len(w.domains) > 0 && r.chance(1, 3) {
 				q = rules.NewRequest(pick(r, poolSchemes)+"://"+pick(r, w.domains)+pick(r, poolPaths), genSourceURL(r), pick(r, poolReqTypes))
 			}
-			qs = append(qs, &gfQuery{kind: "web", web: q})
+			qs = append(qs, &fQuery{kind: "web", web: q})
 		case k < 9:
 			q := genWebRequest(r, w.ruleTexts)
 			if r.chance(1, 3) {
@@ -425,9 +425,9 @@ func gfGenQueryPool(r *rng, w *gfWorld, n int) (qs []*gfQuery) {
 			} else if len(w.domains) > 0 && r.chance(1, 2) {
 				q = rules.NewRequest(pick(r, poolSchemes)+"://"+pick(r, w.domains)+pick(r, poolPaths), genSourceURL(r), pick(r, poolReqTypes))
 			}
-			qs = append(qs, &gfQuery{kind: "all", web: q})
+			qs = append(qs, &fQuery{kind: "all", web: q})
 		default:
-			qs = append(qs, &gfQuery{kind: "cos", host: pick(r, []string{"", "www.", "sub."}) + pick(r, poolDomains),
+			qs = append(qs, &fQuery{kind: "cos", host: pick(r, []string{"", "www.", "sub."}) + pick(r, poolDomains),
 				opt: rules.CosmeticOption(r.n(8))})
 		}
 	}
@@ -435,72 +435,72 @@ func gfGenQueryPool(r *rng, w *gfWorld, n int) (qs []*gfQuery) {
 	return qs
 }
 
-// gfLawMarker flags an answer that violates a Go-only law of the property.
-const gfLawMarker = "LAW-VIOLATION"
+// fLawMarker flags an answer that violates a Go-only law of the property.
+const fLawMarker = "LAW-VIOLATION"
 
-// gfEngines are the three engines over ONE shared storage.
-type gfEngines struct {
+// fEngines are the three engines over ONE shared storage.
+type fEngines struct {
 	s *filterlist.RuleStorage
 	n *urlfilter.NetworkEngine
 	d *urlfilter.DNSEngine
 	e *urlfilter.Engine
 }
 
-func gfBuild(s *filterlist.RuleStorage) *gfEngines {
-	return &gfEngines{s: s, n: urlfilter.NewNetworkEngine(s), d: urlfilter.NewDNSEngine(s), e: urlfilter.NewEngine(s)}
+func fBuild(s *filterlist.RuleStorage) *fEngines {
+	return &fEngines{s: s, n: urlfilter.NewNetworkEngine(s), d: urlfilter.NewDNSEngine(s), e: urlfilter.NewEngine(s)}
 }
 
-// gfAnswer runs q and returns the canonical complete answer plus the result
+// fAnswer runs q and returns the canonical complete answer plus the result
 // object (for later re-serialisation).
-func (g *gfEngines) answer(q *gfQuery) (ans string, obj any) {
+func (g *fEngines) answer(q *fQuery) (ans string, obj any) {
 	switch q.kind {
 	case "dns":
 		res, matched := g.d.MatchRequest(q.dns)
 
-		return gfSerDNS(res, matched), res
+		return fSerDNS(res, matched), res
 	case "web":
 		m := g.e.MatchRequest(q.web)
 
-		return gfSerMatching(m), m
+		return fSerMatching(m), m
 	case "all":
 		rs := g.n.MatchAll(q.web)
-		first := gfNetKeys(rs)
+		first := fNetKeys(rs)
 		// the caller's slice goes through removeBadfilterRules / removeDNSRewriteRules
 		one := rules.NewMatchingResult(rs, nil).GetBasicResult()
 
-		after := gfNetKeys(rs)
+		after := fNetKeys(rs)
 		law := ""
 		if after != first {
-			law = " " + gfLawMarker + " caller's slice changed by NewMatchingResult: " + after
+			law = " " + fLawMarker + " caller's slice changed by NewMatchingResult: " + after
 		}
 
-		return fmt.Sprintf("all=%s match=%s%s", first, gfNetKey(one), law), rs
+		return fmt.Sprintf("all=%s match=%s%s", first, fNetKey(one), law), rs
 	default:
 		c := g.e.GetCosmeticResult(q.host, q.opt)
 
-		return gfSerCosmetic(c), c
+		return fSerCosmetic(c), c
 	}
 }
 
-// gfReser re-serialises a result object without calling anything on the engine.
-func gfReser(obj any) string {
+// fReser re-serialises a result object without calling anything on the engine.
+func fReser(obj any) string {
 	switch o := obj.(type) {
 	case *urlfilter.DNSResult:
-		return gfSerDNSRaw(o)
+		return fSerDNSRaw(o)
 	case *rules.MatchingResult:
-		return gfSerMatchingRaw(o)
+		return fSerMatchingRaw(o)
 	case []*rules.NetworkRule:
-		return gfNetKeys(o)
+		return fNetKeys(o)
 	case urlfilter.CosmeticResult:
-		return gfSerCosmetic(o)
+		return fSerCosmetic(o)
 	default:
 		return "?"
 	}
 }
 
-// gfPoke evaluates derived results on an OLD result object (the property says
+// fPoke evaluates derived results on an OLD result object (the property says
 // this must alter neither the engine nor previously returned results).
-func gfPoke(r *rng, obj any) {
+func fPoke(r *rng, obj any) {
 	switch o := obj.(type) {
 	case *urlfilter.DNSResult:
 		switch r.n(3) {
@@ -532,17 +532,17 @@ func gfPoke(r *rng, obj any) {
 
 // ------------------------------------------------- abstract trace (model) ----
 
-// gfTruth is the content-determined retrieval function of a world: every
+// fTruth is the content-determined retrieval function of a world: every
 // scanned rule by storage index, as freshly parsed objects that never touch an
 // engine under test.
-type gfTruth struct {
+type fTruth struct {
 	order []int64
 	rule  map[int64]rules.Rule
 	rid   map[string]int // (listID,text) -> small number
 }
 
-func (w *gfWorld) truth() *gfTruth {
-	t := &gfTruth{rule: map[int64]rules.Rule{}, rid: map[string]int{}}
+func (w *fWorld) truth() *fTruth {
+	t := &fTruth{rule: map[int64]rules.Rule{}, rid: map[string]int{}}
 	s := w.storage(nil, false)
 	defer func() { _ = s.Close() }()
 	sc := s.NewRuleStorageScanner()
@@ -550,7 +550,7 @@ func (w *gfWorld) truth() *gfTruth {
 		f, idx := sc.Rule()
 		t.order = append(t.order, idx)
 		t.rule[idx] = f
-		k := gfRuleKey(f)
+		k := fRuleKey(f)
 		if _, ok := t.rid[k]; !ok {
 			t.rid[k] = len(t.rid)
 		}
@@ -559,8 +559,8 @@ func (w *gfWorld) truth() *gfTruth {
 	return t
 }
 
-func (t *gfTruth) ridOf(r rules.Rule) int {
-	id, ok := t.rid[gfRuleKey(r)]
+func (t *fTruth) ridOf(r rules.Rule) int {
+	id, ok := t.rid[fRuleKey(r)]
 	if !ok {
 		return -1
 	}
@@ -569,7 +569,7 @@ func (t *gfTruth) ridOf(r rules.Rule) int {
 }
 
 // wire renders ((idx listID rid)…).
-func (t *gfTruth) wire() string {
+func (t *fTruth) wire() string {
 	items := make([]string, len(t.order))
 	for i, idx := range t.order {
 		l, _ := filterlist.VerifRuleListIdx(idx)
@@ -579,10 +579,10 @@ func (t *gfTruth) wire() string {
 	return wlist(items...)
 }
 
-// gfEntry is one abstract query of the Prog model: a loop over candidate
+// fEntry is one abstract query of the Prog model: a loop over candidate
 // indices (retrieve through the cache, skip nil, re-Match) followed by the
 // matching rules of the in-memory (sequential scan) table.
-type gfEntry struct {
+type fEntry struct {
 	pool     bool    // goes through getRequestFromPool
 	cands    []int64 // candidate indices in visiting order (first occurrences)
 	match    []int   // rids of candidate rules that match the request
@@ -591,7 +591,7 @@ type gfEntry struct {
 	obsSize  string  // observed cache size after the entry or "_"
 }
 
-func gfInts(xs []int) string {
+func fInts(xs []int) string {
 	items := make([]string, len(xs))
 	for i, x := range xs {
 		items[i] = fmt.Sprint(x)
@@ -600,18 +600,18 @@ func gfInts(xs []int) string {
 	return wlist(items...)
 }
 
-func (e *gfEntry) wire() string {
+func (e *fEntry) wire() string {
 	cs := make([]string, len(e.cands))
 	for i, c := range e.cands {
 		cs[i] = fmt.Sprint(c)
 	}
 
-	return wlist(wbool(e.pool), wlist(cs...), gfInts(e.match), gfInts(e.resident), wbool(e.obsAns != "_"), wbool(e.obsSize != "_"))
+	return wlist(wbool(e.pool), wlist(cs...), fInts(e.match), fInts(e.resident), wbool(e.obsAns != "_"), wbool(e.obsSize != "_"))
 }
 
-func (e *gfEntry) observed() string { return e.obsAns + ":" + e.obsSize }
+func (e *fEntry) observed() string { return e.obsAns + ":" + e.obsSize }
 
-func gfDedup(reads []gfRead, keep func(rules.Rule) bool) (out []int64) {
+func fDedup(reads []fRead, keep func(rules.Rule) bool) (out []int64) {
 	seen := map[int64]bool{}
 	for _, rd := range reads {
 		if rd.under != nil && !keep(rd.under) {
@@ -626,12 +626,12 @@ func gfDedup(reads []gfRead, keep func(rules.Rule) bool) (out []int64) {
 	return out
 }
 
-func gfIsNet(r rules.Rule) bool  { _, ok := r.(*rules.NetworkRule); return ok }
-func gfIsHost(r rules.Rule) bool { _, ok := r.(*rules.HostRule); return ok }
+func fIsNet(r rules.Rule) bool  { _, ok := r.(*rules.NetworkRule); return ok }
+func fIsHost(r rules.Rule) bool { _, ok := r.(*rules.HostRule); return ok }
 
 // netEntry observes, on a FRESH engine over spying lists, which indices
 // MatchAll(req) visits, and computes the match bits on the truth objects.
-func (w *gfWorld) netEntry(t *gfTruth, req *rules.Request, dnsEngine bool) *gfEntry {
+func (w *fWorld) netEntry(t *fTruth, req *rules.Request, dnsEngine bool) *fEntry {
 	key := fmt.Sprintf("net %v %+v", dnsEngine, *req)
 	if e, ok := w.memo[key]; ok {
 		c := *e
@@ -640,7 +640,7 @@ func (w *gfWorld) netEntry(t *gfTruth, req *rules.Request, dnsEngine bool) *gfEn
 	}
 	e := w.netEntry0(t, req, dnsEngine)
 	if w.memo == nil {
-		w.memo = map[string]*gfEntry{}
+		w.memo = map[string]*fEntry{}
 	}
 	w.memo[key] = e
 	c := *e
@@ -648,8 +648,8 @@ func (w *gfWorld) netEntry(t *gfTruth, req *rules.Request, dnsEngine bool) *gfEn
 	return &c
 }
 
-func (w *gfWorld) netEntry0(t *gfTruth, req *rules.Request, dnsEngine bool) *gfEntry {
-	var log []gfRead
+func (w *fWorld) netEntry0(t *fTruth, req *rules.Request, dnsEngine bool) *fEntry {
+	var log []fRead
 	s := w.storage(&log, false)
 	defer func() { _ = s.Close() }()
 	var res []*rules.NetworkRule
@@ -664,8 +664,8 @@ func (w *gfWorld) netEntry0(t *gfTruth, req *rules.Request, dnsEngine bool) *gfE
 		log = log[:0]
 		res = n.MatchAll(req)
 	}
-	e := &gfEntry{obsAns: "_", obsSize: "_"}
-	e.cands = gfDedup(log, gfIsNet)
+	e := &fEntry{obsAns: "_", obsSize: "_"}
+	e.cands = fDedup(log, fIsNet)
 	fromStorage := map[rules.Rule]bool{}
 	for _, rd := range log {
 		if rd.rule != nil {
@@ -689,7 +689,7 @@ func (w *gfWorld) netEntry0(t *gfTruth, req *rules.Request, dnsEngine bool) *gfE
 // hostEntry observes the candidates of the DNS engine's hosts table for a
 // hostname, on a fresh engine that was built from the hosts-style lines only (same
 // indices), so that the table is always reached.
-func (w *gfWorld) hostEntry(t *gfTruth, hostname string) *gfEntry {
+func (w *fWorld) hostEntry(t *fTruth, hostname string) *fEntry {
 	key := "host " + hostname
 	if e, ok := w.memo[key]; ok {
 		c := *e
@@ -698,7 +698,7 @@ func (w *gfWorld) hostEntry(t *gfTruth, hostname string) *gfEntry {
 	}
 	e := w.hostEntry0(t, hostname)
 	if w.memo == nil {
-		w.memo = map[string]*gfEntry{}
+		w.memo = map[string]*fEntry{}
 	}
 	w.memo[key] = e
 	c := *e
@@ -706,15 +706,15 @@ func (w *gfWorld) hostEntry(t *gfTruth, hostname string) *gfEntry {
 	return &c
 }
 
-func (w *gfWorld) hostEntry0(t *gfTruth, hostname string) *gfEntry {
-	var log []gfRead
+func (w *fWorld) hostEntry0(t *fTruth, hostname string) *fEntry {
+	var log []fRead
 	s := w.storage(&log, true)
 	defer func() { _ = s.Close() }()
 	d := urlfilter.NewDNSEngine(s)
 	log = log[:0]
 	_, _ = d.MatchRequest(&urlfilter.DNSRequest{Hostname: hostname})
-	e := &gfEntry{obsAns: "_", obsSize: "_"}
-	e.cands = gfDedup(log, gfIsHost)
+	e := &fEntry{obsAns: "_", obsSize: "_"}
+	e.cands = fDedup(log, fIsHost)
 	for _, idx := range e.cands {
 		if hr, ok := t.rule[idx].(*rules.HostRule); ok && hr.Match(hostname) {
 			e.match = append(e.match, t.ridOf(hr))
@@ -724,7 +724,7 @@ func (w *gfWorld) hostEntry0(t *gfTruth, hostname string) *gfEntry {
 	return e
 }
 
-func gfSortedRids(t *gfTruth, rs []rules.Rule) string {
+func fSortedRids(t *fTruth, rs []rules.Rule) string {
 	ids := make([]int, len(rs))
 	for i, r := range rs {
 		ids[i] = t.ridOf(r)
@@ -742,7 +742,7 @@ func gfSortedRids(t *gfTruth, rs []rules.Rule) string {
 	return "[" + strings.Join(items, ".") + "]"
 }
 
-func gfNetAsRules(rs []*rules.NetworkRule) (out []rules.Rule) {
+func fNetAsRules(rs []*rules.NetworkRule) (out []rules.Rule) {
 	for _, r := range rs {
 		out = append(out, r)
 	}
@@ -750,7 +750,7 @@ func gfNetAsRules(rs []*rules.NetworkRule) (out []rules.Rule) {
 	return out
 }
 
-func gfHostAsRules(a, b []*rules.HostRule) (out []rules.Rule) {
+func fHostAsRules(a, b []*rules.HostRule) (out []rules.Rule) {
 	for _, r := range a {
 		out = append(out, r)
 	}
@@ -763,7 +763,7 @@ func gfHostAsRules(a, b []*rules.HostRule) (out []rules.Rule) {
 
 // entries translates one executed query (with its result object) into the
 // abstract entries of the model, filling in what was observed.
-func (w *gfWorld) entries(t *gfTruth, q *gfQuery, obj any, cacheSize int) (es []*gfEntry) {
+func (w *fWorld) entries(t *fTruth, q *fQuery, obj any, cacheSize int) (es []*fEntry) {
 	switch q.kind {
 	case "dns":
 		if q.dns.Hostname == "" {
@@ -773,11 +773,11 @@ func (w *gfWorld) entries(t *gfTruth, q *gfQuery, obj any, cacheSize int) (es []
 		req := hostnameRequest(q.dns)
 		ne := w.netEntry(t, req, true)
 		ne.pool = true
-		ne.obsAns = gfSortedRids(t, gfNetAsRules(res.NetworkRules))
+		ne.obsAns = fSortedRids(t, fNetAsRules(res.NetworkRules))
 		es = append(es, ne)
 		if res.NetworkRule == nil {
 			he := w.hostEntry(t, q.dns.Hostname)
-			he.obsAns = gfSortedRids(t, gfHostAsRules(res.HostRulesV4, res.HostRulesV6))
+			he.obsAns = fSortedRids(t, fHostAsRules(res.HostRulesV4, res.HostRulesV6))
 			es = append(es, he)
 		}
 	case "web":
@@ -787,7 +787,7 @@ func (w *gfWorld) entries(t *gfTruth, q *gfQuery, obj any, cacheSize int) (es []
 		}
 	case "all":
 		ne := w.netEntry(t, q.web, false)
-		ne.obsAns = gfSortedRids(t, gfNetAsRules(obj.([]*rules.NetworkRule)))
+		ne.obsAns = fSortedRids(t, fNetAsRules(obj.([]*rules.NetworkRule)))
 		es = append(es, ne)
 	}
 	if len(es) > 0 {
